@@ -215,6 +215,15 @@ func main() {
 	if prop == "setup" {
 		build(false, true)
 		build(true, true)
+		// bind the environment model to the real kernel (never fails the setup: reported only)
+		cmd := exec.Command("go", "run", "./cmd/vconf")
+		cmd.Dir = verifDir
+		cmd.Env = env()
+		out, err := cmd.CombinedOutput()
+		fmt.Print(string(out))
+		if err != nil {
+			fmt.Println("note: vnet conformance suite reported disagreements (see above); checks that depend on vnet are still run")
+		}
 		fmt.Println("setup ok")
 		return
 	}
@@ -422,6 +431,15 @@ func writeEvidence(prop, tier string, seed uint64, r *engine.Result, violations,
 		"vacuous":    vacuous,
 		"known_findings_reproduced": known,
 		"explanation": "states = nodes of the exploration tree visited (choice points + end states); transitions = scheduling steps / operations executed; every explored trace is a trace of the implementation itself, so traces_validated_against_impl = evaluations",
+	}
+	if b, err := os.ReadFile(filepath.Join(verifDir, "evidence", "vnet-conformance.json")); err == nil {
+		var vc struct {
+			Scenarios int `json:"scenarios"`
+			Agree     int `json:"agree"`
+		}
+		if json.Unmarshal(b, &vc) == nil {
+			cov["environment_model_conformance"] = fmt.Sprintf("%d of %d socket-level scenarios gave identical observations on real loopback sockets and on vnet (last run of cmd/vconf)", vc.Agree, vc.Scenarios)
+		}
 	}
 	ev := map[string]any{
 		"property_id": prop,
